@@ -59,7 +59,7 @@ pub fn run_budget(seed: u64, size: Size, out: &mut Vec<String>) -> (usize, usize
         for l in lists.iter().chain(if size == Size::Thorough { lists4.iter() } else { [].iter() }) {
             // quick: two-operation lists exhaustively, three-operation lists exhaustively for the
             // first token bucket only and sampled otherwise
-            let (cap, extra) = if size == Size::Thorough { (60000, 3000) } else if l.len() == 2 { (3000, 0) } else if ci == 0 { (6000, 0) } else { (150, 150) };
+            let (cap, extra) = if size == Size::Thorough { if l.len() <= 3 { (8000, 500) } else { (1500, 1500) } } else if l.len() == 2 { (3000, 0) } else if ci == 0 { (6000, 0) } else { (150, 150) };
             let reset = json!({"e":"reset","comp":"budget","cfg":cfg,"ops":l,"seed":seed});
             let st = explore(&|| budget_scenario(cfg, l), &reset, cap, extra, &mut rng, out);
             ns += st.schedules;
@@ -132,7 +132,7 @@ pub fn run_limit(seed: u64, size: Size, out: &mut Vec<String>) -> (usize, usize,
         json!({"kind":"vegas","initial":1,"min":1,"max":1,"inc":1,"fnum":2,"alpha":0,"beta":0}),
     ];
     let lists: Vec<Vec<&str>> = vec![vec!["S", "F"], vec!["S", "S"], vec!["F", "F"], vec!["L", "F"], vec!["S", "F", "F"], vec!["S", "L", "F"], vec!["S", "S", "F"]];
-    let (cap, extra) = if size == Size::Quick { (400, 100) } else { (30000, 3000) };
+    let (cap, extra) = if size == Size::Quick { (400, 100) } else { (6000, 1000) };
     let (mut ns, mut ne, mut ex) = (0, 0, true);
     for cfg in &cfgs {
         for l in &lists {
